@@ -21,6 +21,11 @@ def long_names(text):
     return _SHORT.sub(r'\1_p', _SHORT_NUM.sub(r'\1x\2', text))
 
 
+def unicode_names(text):
+    """Layout variant: the same identifiers with a non-ASCII letter inside (Kx0 -> Kéx0)."""
+    return re.sub(r'\b([A-Za-z])x(\d+)\b', r'\1éx\2', text)
+
+
 class Prog:
     def __init__(self):
         self.files = {}            # relpath -> list of source lines (other modules)
